@@ -18,7 +18,8 @@ Inductive op :=
 | OWrite (r : option (list (tok Z)))                 (* Writer over a Vec<u8>, lexed *)
 | ORoundtrip (r : option (bool * list Z))            (* write, Tensor::read(same dims): (read == t, read.iter()) *)
 | ORead (rdims : list N) (toks : list (tok Z)) (r : option (list N * list Z))   (* Tensor::read(rdims, text): dims, iter *)
-| OEq (edims : list N) (edata : list Z) (r : option bool).  (* t == from_vec(edims, edata); None: that constructor panicked *)
+| OEq (edims : list N) (edata : list Z) (r : option bool)   (* t == from_vec(edims, edata); None: that constructor panicked *)
+| ODebug (r : option (list (dtok Z))).                      (* format!("{:?}", t), lexed *)
 
 (** [c_ok]: the constructor returned (false: it panicked; then no operation is run) *)
 Record case := Case { c_dims : list N; c_ctor : ctor; c_data : list Z; c_ok : bool; c_ops : list op }.
@@ -27,6 +28,11 @@ Definition lNeqb := leqb N.eqb.
 Definition lZeqb := leqb Z.eqb.
 Definition tokeqb (a b : tok Z) : bool :=
   match a, b with E x, E y => Z.eqb x y | Sp, Sp => true | Nl, Nl => true | _, _ => false end.
+Definition dtokeqb (a b : dtok Z) : bool :=
+  match a, b with
+  | DE x, DE y => Z.eqb x y | DOpen, DOpen => true | DClose, DClose => true | DComma, DComma => true
+  | _, _ => false
+  end.
 
 (* ------------------------------------------------------------------ model side *)
 Definition construct (c : case) : option (tensor Z) :=
@@ -58,6 +64,7 @@ Definition m_op (t : tensor Z) (o : op) : bool :=
       oeqb (peqb lNeqb lZeqb) (match read rdims toks with Some u => Some (dims u, iter u) | None => None end) r
   | OEq edims edata r =>
       oeqb Bool.eqb (match from_vec edims edata with Some u => Some (eq Z.eqb t u && eq Z.eqb u t) | None => None end) r
+  | ODebug r => oeqb (leqb dtokeqb) (debug t) r
   end.
 
 Fixpoint m_ops (t : tensor Z) (ops : list op) : bool :=
@@ -106,6 +113,7 @@ Definition s_op (ds : list N) (l : list Z) (o : op) : bool :=
       if s_constructible edims (length edata)
       then oeqb Bool.eqb (Some (lNeqb ds edims && lZeqb l edata)) r
       else oeqb Bool.eqb None r
+  | ODebug r => oeqb (leqb dtokeqb) (Some (debug_spec ds l)) r
   end.
 
 Fixpoint s_ops (ds : list N) (l : list Z) (ops : list op) : bool :=
